@@ -32,11 +32,17 @@ pub enum Reader {
     /// auto compaction (stride 1, two new checkpoints): plans from the cut points, then appends a
     /// job bracket and checkpoint frames (C09)
     AutoCompaction,
+    /// not a reader: a SECOND writer handle on the same log file (an outgoing authority finishing an
+    /// append) writes one frame of ~20 KiB - larger than the writer's buffer. Racing a large append
+    /// by the engine: the file must consist of whole frames (C02: O_APPEND, one write per frame)
+    SecondHandleBigFrame,
 }
 
 #[derive(Clone, Copy, Debug, PartialEq, Eq, Hash)]
 pub enum Writer {
     Message,
+    /// a message of ~20 KiB (larger than the log writer's buffer)
+    BigMessage,
     /// run_ended for the last message's run (adds the reply to that turn)
     RunEnded,
     SideEffect,
@@ -132,6 +138,23 @@ fn read(fx: &Fx, thread: &str, msgs: &[String], r: Reader) -> Value {
             Ok((child, seq, mid)) => json!({"ok": {"child": child, "cut_seq": seq, "cut_message_id": mid}}),
             Err(e) => json!({"err": e}),
         },
+        Reader::SecondHandleBigFrame => {
+            let log = match rip_log::EventLog::new(fx.data.join("events.jsonl")) {
+                Ok(l) => l,
+                Err(e) => return json!({"err": e.to_string()}),
+            };
+            let frame = rip_kernel::Event {
+                id: uuid::Uuid::new_v4().to_string(),
+                session_id: "second-handle-session".into(),
+                timestamp_ms: 1,
+                seq: 0,
+                kind: rip_kernel::EventKind::SessionStarted { input: "z".repeat(20 * 1024) },
+            };
+            match log.append(&frame) {
+                Ok(()) => json!({"ok": "appended"}),
+                Err(e) => json!({"err": e.to_string()}),
+            }
+        }
         Reader::AutoCompaction => res(store.compaction_auto_v1(thread, ripd::CompactionAutoV1Request { stride_messages: Some(1), max_new_checkpoints: Some(2), dry_run: Some(false), actor_id: "u".into(), origin: "o".into() })),
         Reader::Handoff => match store.handoff(thread, None, (Some("racing".into()), None), None, None, ("u".into(), "o".into())) {
             Ok((child, seq, mid)) => json!({"ok": {"child": child, "cut_seq": seq, "cut_message_id": mid}}),
@@ -184,6 +207,7 @@ fn write(fx: &Fx, thread: &str, msgs: &[String], last_sess: &str, w: Writer) -> 
     let last = msgs.last().cloned().unwrap_or_default();
     match w {
         Writer::Message => store.append_message(thread, "u".into(), "o".into(), "concurrent".into()).map(|_| ()),
+        Writer::BigMessage => store.append_message(thread, "u".into(), "o".into(), "y".repeat(20 * 1024)).map(|_| ()),
         Writer::RunEnded => store.append_run_ended(thread, &last, last_sess, "completed".into(), "u".into(), "o".into()).map(|_| ()),
         Writer::SideEffect => fx.side_effect(thread, &last, last_sess, 7).map(|_| ()),
         Writer::Checkpoint => store
@@ -437,6 +461,7 @@ pub fn worker(opts: Opts, prop: &'static str, level: &'static str, spec: &str) -
         all.push(Reader::Branch);
         all.push(Reader::Handoff);
         all.push(Reader::AutoCompaction);
+        all.push(Reader::SecondHandleBigFrame);
         for k in 0..18 {
             all.push(Reader::Compile(k));
         }
@@ -445,6 +470,7 @@ pub fn worker(opts: Opts, prop: &'static str, level: &'static str, spec: &str) -
     let r = parse(&readers, v["reader"].as_str().unwrap_or("")).unwrap_or(Reader::Replay);
     let mut writers = WRITERS.to_vec();
     writers.push(Writer::AutoCompaction);
+    writers.push(Writer::BigMessage);
     let w = parse(&writers, v["writer"].as_str().unwrap_or("")).unwrap_or(Writer::Message);
     let bound = v["bound"].as_u64().unwrap_or(1) as usize;
     run_config(&report, prop, pre, r, w, bound);
